@@ -139,7 +139,7 @@ KeepEvents ==
 
 \* ---- family "resend": C03 (replay)
 ResendEvents ==
-    {K("Connect"), LogonOK, K("Flush"), T("NeedHeartbeat")}
+    {K("Connect"), LogonOK, K("Flush"), T("NeedHeartbeat"), K("Disconnected")}
     \cup {Snd("b1", FALSE, FALSE), Snd("b2", FALSE, TRUE)}
     \cup {In([R("1", 0) EXCEPT !.trid = "T1"])}
     \cup {In([R("2", rs) EXCEPT !.b = b, !.e = e]) : rs \in {0, 1}, b \in 1..(MaxOut + 1), e \in (0..(MaxOut + 1)) \cup {999999}}
